@@ -101,9 +101,27 @@ def gen_state(rng, n, tier):
             b = change_set(r)
             bstate.update(b)
             base += ops_of(b, list(b)) + ["finalise", "flush", f"commit {h}"]
+        # commit timing: the node commits a block while it already executes the next one.  Shape of such a history: block A
+        # writes a key, block B deletes it (or overwrites it), the change set writes the value of A again; in the second
+        # variant the commit of B comes after the writes of the change set instead of before
+        late = r.random() < 0.15
+        forced = {}
+        if late:
+            base, bstate = [], {}
+            a, k, v = r.choice(ACCTS), r.choice(KEYS), r.choice(VALS)
+            blkA = change_set(r)
+            blkA[(a, "k", k)] = v
+            bstate.update(blkA)
+            base += ops_of(blkA, list(blkA)) + ["finalise", "flush", "commit 1"]
+            blkB = {t: x for t, x in change_set(r, bstate).items() if t != (a, "k", k)}
+            blkB[(a, "k", k)] = None if r.random() < 0.7 else r.choice([x for x in VALS if x != v])
+            bstate.update(blkB)
+            base += ops_of(blkB, list(blkB)) + ["finalise", "flush", "commit 2"]
+            forced = {(a, "k", k): v}
         hbase = sum(1 for o in base if o.startswith("commit"))
         # only real changes relative to the committed base count as changes
         cs = {t: v for t, v in change_set(r, bstate).items() if bstate.get(t) != v}
+        cs.update(forced)
         if not cs:
             cs = {("a2", "k", "xy"): "zz"} if bstate.get(("a2", "k", "xy")) != "zz" else {("a2", "k", "xy"): "w"}
         order1 = list(cs)
@@ -123,10 +141,11 @@ def gen_state(rng, n, tier):
         tags = {"perturb:" + kind}
         for i, (c, order, extra) in enumerate([(cs, order1, "plain"), (cs, order2, "shuffled+reads"), (cs3, list(cs3), "perturbed")]):
             ops.append("open")
-            ops += base
+            late_here = late and extra == "shuffled+reads"
+            ops += (base[:-1] if late_here else base)
             if extra == "shuffled+reads":
                 # exactly one kind of variation per history, so that a differing root is attributed to it
-                variant = r.choice(["shuffle", "reopen", "evict", "reads", "overwritten", "noop-account-write", "balance-by-delta", "balance-by-delta",
+                variant = "late-commit" if late else r.choice(["shuffle", "reopen", "evict", "reads", "overwritten", "noop-account-write", "balance-by-delta", "balance-by-delta",
                                     "reverted-write", "reverted-write"])
                 if variant == "balance-by-delta" and not any(t[1] == "bal" for t in c):
                     variant = "shuffle"
@@ -185,6 +204,8 @@ def gen_state(rng, n, tier):
             if by_delta and any(t[1] == "bal" for t in c):
                 tags.add("balance-by-delta:" + extra)
             ops += ops_of(c, order, bstate, delta=by_delta)
+            if late_here:
+                ops.append(base[-1])          # the commit of the previous block arrives only now
             if extra == "shuffled+reads" and variant == "reverted-write/after-own":
                 # the failed transaction comes AFTER the block's own writes, on a key the block has just deleted / written
                 ks = [t for t in c if t[1] == "k"]
